@@ -1855,12 +1855,17 @@ def check_C20(tier, seed, replay=None):
 
 
 class BootTape:
-    """spellings inside the bootstrap subset: single spaces, no comments, '<-' or '=' or the arrows, newline terminators"""
+    """spellings inside the bootstrap subset: single spaces, no comments outside code blocks, any definition operator,
+    newline or semicolon terminators, every literal quoting and escape form"""
     def __init__(self, rng):
         self.rng, self.boring = rng, False
 
-    def pick(self, n):
-        return self.rng.randrange(n) if n in (4, 2) else (1 if n == 6 else 0)
+    def pick(self, n, kind=None):
+        if kind == "ws":
+            return 1
+        if kind == "term":
+            return self.rng.choice([0, 0, 1])
+        return self.rng.randrange(n)
 
     def chance(self, p):
         return False
